@@ -23,5 +23,5 @@ CONSTANTS
   Gen = FALSE
 SPECIFICATION Spec
 SYMMETRY Symm
-INVARIANTS ElectionSafety LogMatching NoViolation CommittedDurable TypeOK
+INVARIANTS ElectionSafety LogMatching NoViolation CommittedDurable PrevoteForThisTerm VotesWithinAsked TypeOK
 CHECK_DEADLOCK FALSE
